@@ -126,6 +126,11 @@ pub trait Engine: Sync {
     fn focus(&self, _sc: &Self::Sc, _v: &Violation) -> Option<Self::Sc> {
         None
     }
+    /// Is a simulated process that hangs, or kills its OS process, a violation of this property?
+    /// (C12-C14: a look-up that never returns is not the answer the reference gives. C09: no.)
+    fn hang_or_death_is_violation(&self) -> bool {
+        false
+    }
     /// What "evaluations" counts for this engine (default: scenarios).
     fn evaluations(&self, _st: &Stats, scenarios: u64) -> u64 {
         scenarios
@@ -265,6 +270,15 @@ pub fn run_worker<E: Engine>(e: &E, tier: Tier, base_seed: u64, worker: u64, nwo
         crate::note_progress(idx);
         let seed = crate::prng::mix(base_seed, idx, e.lane());
         let sc = e.generate(seed, idx, tier);
+        crate::note_current(crate::Current {
+            property: e.property().to_string(),
+            engine: e.engine_name().to_string(),
+            base_seed,
+            index: idx,
+            scenario_seed: seed,
+            scenario: serde_json::to_value(&sc).unwrap_or(Value::Null),
+            replay_mode: false,
+        });
         let out = e.execute(&sc, &mut rep.stats);
         rep.evaluations += 1;
         if let Some(log) = digest_log.as_mut() {
